@@ -775,6 +775,10 @@ def order_limit_rel(rel, keys, limit, assumptions):
   """ORDER BY keys [(column index, desc)] LIMIT limit over a slot list.  Appends to
   `assumptions` that sort keys of present rows are non-null and pairwise distinct (the
   order must be total for the result to be determined)."""
+  if not keys:
+    if limit == 0:
+      return Rel(rel.cols, [], ordered=True, distinct=True)
+    raise Unsupported('limit without order')
   slots = rel.slots
   n = len(slots)
 
